@@ -679,6 +679,31 @@ def reference(line):
         if op == "inirt" and t[1] in ("w", "c"):
             pairs = [(unhex(t[i]), unhex(t[i + 1])) for i in range(3, len(t) - 1, 2)]
             return ini_expected(t[2], pairs)
+        if op == "tabrtt":
+            # readAs: fully typed tables only; an 's' column returns the text written, whatever it spells
+            types, sep, dec, n = ("" if t[1] == "-" else t[1]), int(t[2]), int(t[3]), int(t[4])
+            names, cells = t[5:5 + n], t[5 + n:]
+            if len(types) != n or n < 2 or any(c in "[]=" for c in cells):
+                return None
+            out = []
+            for i in range(0, len(cells) - len(cells) % n, n):
+                cs = []
+                for ty, c in zip(types, cells[i:i + n]):
+                    if ty == "s":
+                        if c.startswith("s:"):
+                            cs.append("s" + c[2:])
+                        else:
+                            cs.append("s" + hexs(c[2:].replace(".", chr(dec)).encode()))
+                    elif ty == "n":
+                        if not c.startswith("n:"):
+                            return None
+                        cs.append("n" + hexs(fmt15(float(c[2:]))))
+                    elif ty == "i":
+                        if not (c.startswith("n:") and re.match(r"^-?\d+$", c[2:]) and abs(int(c[2:])) < 2 ** 31):
+                            return None
+                        cs.append("i%d" % int(c[2:]))
+                out.append(",".join(cs))
+            return "cols=%s rows=%s" % (",".join(names), ";".join(out))
         sep, dec = 44, 46
         if op in ("tabws", "tabrts"):
             sep, dec = int(t[1]), int(t[2])
@@ -722,7 +747,7 @@ def reference(line):
     return None
 
 
-REFERENCE_NAME = "python: INI dictionary semantics + set sequence; identity on tables; csv.writer; float()/%.15g"
+REFERENCE_NAME = "python: INI dictionary semantics + set sequence; identity on tables (typed columns: the text / float / int of the cell written); csv.writer; float()/%.15g"
 
 KNOWN = []
 
@@ -734,7 +759,14 @@ LEVEL_TEXT = ("Proved in Lean 4 about the model that the driver runs against the
               "document and every sequence (any length) of set(\"section/key\", value) calls on existing keys, new keys, new sections and "
               "the section-less group, interleaved with any number of explicit write() calls and ended by the destructor's write, a "
               "fresh IniFile on the resulting file returns for every section/key the last value set, else the document's value, and "
-              "the resulting file is again a document of the grammar with that meaning (so the statement composes over sessions); "
+              "the resulting file is again a document of the grammar with that meaning; ini_sessions: for any number of sessions on one path "
+              "(reopen what the previous one left, sets and writes, destructor) and EVERY prefix of that history, the file read back equals the "
+              "abstract map (last set of each entry, else the document's value) of the sets made so far (IniFile has no delete operation); "
+              "ini_name_roundtrip / ini_name_necessary: the decidable predicate NameOk(section, key) (section without ']' '/' LF; key non-empty, "
+              "without '=' '/' LF, first byte an ASCII byte above '/' other than ';' '[', last byte not blank; everything else allowed: blanks, "
+              "'#', ';', '[', '=' in sections, empty section) is sufficient for set / destructor / fresh read to return the value and leave "
+              "every other entry alone, and each clause is necessary: 15 witness names, one per clause, do not come back (same histories "
+              "replayed on the library from corpus/C18/names.ops); "
               "(3) ini_write_in_bounds: for any NUL-free file bytes or a missing file and any set / operator[]= / write history with any NUL-free "
               "byte strings, write never reads outside _lines; (4) ini_order: for any object state the written text contains all lines of "
               "_lines in order, non-entry lines byte for byte, entry lines respelled key=value with the same key, new lines only inserted; "
@@ -748,7 +780,10 @@ LEVEL_TEXT = ("Proved in Lean 4 about the model that the driver runs against the
               "data() loop, BOM test, type inference) gives back the columns and the rows cell for cell, numbers as myatof of the text "
               "written; csv_items_roundtrip: ANY sequence of << items (cells and array rows in any mix, arrays shorter or longer than the column "
               "count) with such cells is read back as exactly the rows the documented row-filling rule yields; csv_semicolon_row: after setSeparator(';') a row of such cells is parsed back cell for cell under the reader's setting for "
-              "';' files (decimal comma guessed), numbers written with '.' being numbers again (fix cb50e4a); (6) csv_number_exact_Q: every number text "
+              "';' files (decimal comma guessed), numbers written with '.' being numbers again (fix cb50e4a); csv_typed_row: rows read with "
+              "readAs(types), for every separator and the writer's decimal symbol '.' or equal to the reader's: an 's' column returns ANY string byte "
+              "for byte (also strings that spell numbers), an 'n' column myatof of the number text (decimal comma written and read back), an "
+              "'i' column the integer exactly for [-]digits below 2^31, a column whose character matches no case is dropped; (6) csv_number_exact_Q: every number text "
               "[-]digits[.digits][(e|E)[+|-]digits] with at most 18 mantissa digits and 9 exponent digits is accepted by myisnumber, keeps "
               "the code's long long y1 below 2^63 and its int exponent within +-2^31 (so the model's integers are the machine's), and the "
               "rational y1*10^exp held by myatof before its floating-point multiplication equals the number spelled. All texts, keys, "
@@ -762,8 +797,8 @@ LEVEL_NOTE = ("NO THEOREM covers the '15 significant digits' clause itself: that
               "fmt15, which has no theorem); Var::toString's %.15g of the double handed in; CSV files not written by TabularDataFile "
               "(other separators, decimal comma, no header, missing final line end: the last row is then not returned); IniFile::values(), "
               "sectionNames(), plain names without '/', operator[]= and reopen are in the model and in K but the persist theorem is stated "
-              "for set(\"section/key\") and const operator[]; keys outside KeyOK (containing '/', '=' or starting below '0') and values with "
-              "outer blanks are K-only. An IniFile on a path that opens but cannot be read (a directory, fix 4bfeeba) is MODELLED AS the empty file "
+              "for set(\"section/key\") and const operator[]; names outside NameOk are proved NOT to round-trip only for the 15 witnesses of "
+              "ini_name_necessary (one per clause), not for every such name; other names outside NameOk and values with outer blanks are K-only. An IniFile on a path that opens but cannot be read (a directory, fix 4bfeeba) is MODELLED AS the empty file "
               "(ini_unreadable_path is definitional: rfl plus an instance of ini_write_in_bounds); that the constructor returns and what it then "
               "holds is K-checked by the op inidir with a watchdog, nothing more. That operator<< COPIES an array Var instead of sharing and "
               "clearing the caller's array (fix 23ed28f) is K-only: the model takes arrays by value, the theorems hold for the unrepaired code "
@@ -773,4 +808,5 @@ LEVEL_NOTE = ("NO THEOREM covers the '15 significant digits' clause itself: that
               "(csv_semicolon_row), their table level (header sniffing of ';' and tab, decimal comma written by setDecimal) is K + python "
               "oracle only, and one-column tables with a non-default separator are outside (no separator in the file to sniff); number texts with more than 18 mantissa or 9 exponent digits overflow in the C code and are "
               "outside theorem and generator. Not modelled: IniFile::section()/arraysize()/array() (deprecated), write(otherName); TabularDataFile ARFF output, "
-              "readAs(), flushEvery; useQuotes() has no effect in the library. Trusted: Lean kernel, harness/c18.cpp, the generator; libc fgets/feof, strtod, snprintf %.15g, pow as listed.")
+              "the type character 'h' of readAs() (strtoul base 16, libc; rejected by driver and harness, never generated), flushEvery; readAs() is proved at the "
+              "row level (csv_typed_row), its table level (header, data() loop) is K + python oracle (op tabrtt); useQuotes() has no effect in the library. Trusted: Lean kernel, harness/c18.cpp, the generator; libc fgets/feof, strtod, snprintf %.15g, pow as listed.")
